@@ -234,6 +234,7 @@ type c05Case struct {
 	nested   int // additional lifecycle crash in the incarnation that replays (0 none, 1 init, 2 started)
 	maxR     int
 	bigBatch bool
+	pill     int // >0: position of a graceful poison pill inside the batch (a stop request queued among the messages)
 }
 
 func c05Grid(tier string) []c05Case {
@@ -267,6 +268,24 @@ func c05Grid(tier string) []c05Case {
 			}
 		}
 	}
+	// a stop request queued in the same batch: the failure(s) happen ahead of it, while draining for it, or both;
+	// the messages behind a failure still arrive in order, exactly once
+	for L := 3; L <= 6; L++ {
+		for pill := 1; pill < L; pill++ {
+			for a := 0; a < L; a++ {
+				if a == pill {
+					continue
+				}
+				grid = append(grid, c05Case{L: L, pos: []int{a}, handler: "user", inbox: 8, maxR: 3, pill: pill})
+				for b := a + 1; b < L; b++ {
+					if b == pill || (tier != "thorough" && (a+b+pill+L)%2 != 0) {
+						continue
+					}
+					grid = append(grid, c05Case{L: L, pos: []int{a, b}, handler: "user", inbox: 8, maxR: 3, pill: pill})
+				}
+			}
+		}
+	}
 	// every single position of big batches
 	measureBatchMax()
 	bigs := []int{batchMax - 1, batchMax, batchMax + 1}
@@ -296,6 +315,9 @@ func c05Spec(g c05Case, r *rand.Rand) *scriptSpec {
 	for _, p := range g.pos {
 		body[p].Kind = itCrash
 	}
+	if g.pill > 0 {
+		body[g.pill].Kind = itPoison
+	}
 	switch g.handler {
 	case "init":
 		// the incarnation(s) created by the user crash fail again in Initialized
@@ -322,8 +344,8 @@ func init() {
 	register(&prop{
 		id:    "C05",
 		level: "fault_enumeration",
-		rule: "enumerated crash points: batch length L in 1..8 (quick: 1..6, every third combination) x every set of <=2 failing positions x inbox size {1,8,1024} x late senders during the restart delay; failures in Initialized/Started of the restarted incarnation repeated 1..3 times within the budget; selected positions of batches of 4095/4096/4097; " +
-			"each case is checked against the sequential model (Stopped to the failed incarnation, ActorRestartedEvent with count k, fresh receiver initialised, the messages behind the failed one in order exactly once ahead of later sends, the failing message not redelivered, process and bystander alive); distinct by (L, failing positions, handler, inbox size, late)",
+		rule: "enumerated crash points: batch length L in 1..8 (quick: 1..6, every third combination) x every set of <=2 failing positions x inbox size {1,8,1024} x late senders during the restart delay; failures in Initialized/Started of the restarted incarnation repeated 1..3 times within the budget; a graceful stop request at every position of batches of 3..6 combined with 1-2 failures ahead of it and behind it; selected positions of batches around the inbox batch limit; " +
+			"each case is checked against the sequential model (Stopped to the failed incarnation, ActorRestartedEvent with count k, fresh receiver initialised, the messages behind the failed one in order exactly once ahead of later sends, the failing message not redelivered, process and bystander alive); distinct by (L, failing positions, handler, inbox size, late, position of the stop request)",
 		assumptions: []string{
 			"panics inside the Stopped handler are outside the property's quantifier and are not injected",
 			"same reference model and gate technique as C04",
@@ -343,7 +365,7 @@ func init() {
 				spec.MW = 1 + c.rng.Intn(2)
 			}
 			out := runScript(c, spec)
-			out.res.Sig = sigHash("c05", g.L, g.pos, g.handler, g.inbox, g.late, g.nested)
+			out.res.Sig = sigHash("c05", g.L, g.pos, g.handler, g.inbox, g.late, g.nested, g.pill)
 			out.res.Desc = fmt.Sprintf("L=%d crash@%v handler=%s nested=%d inbox=%d late=%v :: %s", g.L, g.pos, g.handler, g.nested, g.inbox, g.late, spec.String())
 			return out.res
 		},
